@@ -1,6 +1,147 @@
-(* C16 — static_file never serves a file outside its root.  (statements only) *)
-From Verif Require Import lib.Base lib.Str model.Static.
+(* C16 — static_file never serves a file outside its root.
+   Statements only; each is closed by [exact] of a lemma from proofs/C16_proofs.v.
+   Model: coq/model/Static.v (posixpath.join/normpath/abspath, strip('/\\'),
+   the startswith(root + sep) test, the 403/404/403 gate) and
+   coq/model/Range.static_file (gate + the rest of the function).
+     clean c     := c <> [] /\ c <> "." /\ c contains no '/'
+     components  := the non-empty pieces of a path between '/'
+     s_dotdot    := ".."                                                  *)
+From Verif Require Import lib.Base lib.Str model.Static model.Range proofs.C16_proofs.
+Local Open Scope N_scope.
 
-Example C16_model_smoke :
-  passes_check [47;97]%N [47;97;47;119]%N [46;46;47;119;50;47;120]%N = false.
-Proof. vm_compute. reflexivity. Qed.
+(* posixpath.normpath: every result is "." or  k slashes (k <= 2) followed by
+   clean components joined by single '/' (so: no empty or "." component, no
+   repeated or trailing separator), and an absolute result (k > 0) has no ".."
+   component at all. *)
+Theorem normpath_normal :
+  forall p : str,
+    normpath p = s_dot
+    \/ exists (k : nat) (comps : list str),
+         normpath p = repeat SEP k ++ join [SEP] comps
+         /\ (k <= 2)%nat /\ (k <> 0%nat \/ comps <> [])
+         /\ Forall clean comps
+         /\ (k <> 0%nat -> ~ In s_dotdot comps).
+Proof. exact normpath_normal_lemma. Qed.
+Print Assumptions normpath_normal.
+
+(* For every working directory (absolute, as os.getcwd() is), root and name:
+   if the prefix test of static_stream.py:79 passes, the normalised target is
+   lexically inside the normalised root: its components are the root's
+   components followed by further components cs, none of which is "..", "." or
+   empty — and cs is non-empty (the target is not the root itself) except when
+   the root is "/" (then abspath(root)+sep = "//", and names that normalise to
+   nothing give the target "//" = the root directory; it is a directory, so
+   the isfile test answers 404; everything is inside "/" anyway). *)
+Theorem C16_contained :
+  forall cwd root name : str,
+    isabs cwd = true ->
+    passes_check cwd root name = true ->
+    exists cs : list str,
+      components (sf_filename cwd root name) = components (abspath cwd root) ++ cs
+      /\ Forall clean cs /\ ~ In s_dotdot cs
+      /\ (cs <> [] \/ abspath cwd root = [SEP]).
+Proof. exact contained_lemma. Qed.
+Print Assumptions C16_contained.
+
+(* The reason for the trailing separator: a target whose component at the
+   root's last position merely STARTS with the root's last component (root
+   /a/www, target /a/www2/x) is refused. *)
+Theorem C16_sibling_prefix_rejected :
+  forall cwd root name (A : list str) (d x : str) (rest : list str),
+    isabs cwd = true ->
+    components (abspath cwd root) = A ++ [d] ->
+    components (sf_filename cwd root name) = A ++ [d ++ x] ++ rest ->
+    x <> [] ->
+    passes_check cwd root name = false.
+Proof. exact sibling_lemma. Qed.
+Print Assumptions C16_sibling_prefix_rejected.
+
+(* The whole function, for ANY int parser, date parser and filesystem oracles
+   (exists / isfile / access / content / mtime are arbitrary functions):
+   failed prefix test => 403, nothing opened; passed but not an existing
+   regular file => 404, nothing opened; not readable => 403, nothing opened;
+   open() is reached only when all tests passed, the request is not a HEAD and
+   the answer is not 304; the status is always one of 200 206 304 403 404 416. *)
+Theorem C16_status :
+  forall (pint parse_date : str -> option Z) (fs_exists fs_isfile fs_access : str -> bool)
+         (content : str -> list N) (mtime_of : str -> Z)
+         cwd root name ims_hdr head range_hdr,
+    let t := sf_filename cwd root name in
+    let r := static_file pint parse_date fs_exists fs_isfile fs_access content mtime_of
+                         cwd root name ims_hdr head range_hdr in
+    (passes_check cwd root name = false -> r_status r = 403%Z /\ r_opened r = false)
+    /\ (passes_check cwd root name = true -> fs_exists t = false \/ fs_isfile t = false ->
+        r_status r = 404%Z /\ r_opened r = false)
+    /\ (passes_check cwd root name = true -> fs_exists t = true -> fs_isfile t = true ->
+        fs_access t = false -> r_status r = 403%Z /\ r_opened r = false)
+    /\ (r_opened r = true ->
+        passes_check cwd root name = true /\ fs_exists t = true /\ fs_isfile t = true /\ fs_access t = true
+        /\ head = false /\ r_status r <> 304%Z)
+    /\ (r_status r = 200 \/ r_status r = 206 \/ r_status r = 304 \/ r_status r = 403
+        \/ r_status r = 404 \/ r_status r = 416)%Z.
+Proof. exact status_lemma. Qed.
+Print Assumptions C16_status.
+
+(* The property in one statement: whenever static_file reaches open(), the
+   path it opens (sf_filename) lies below the root. *)
+Theorem C16_never_opens_outside_root :
+  forall (pint parse_date : str -> option Z) (fs_exists fs_isfile fs_access : str -> bool)
+         (content : str -> list N) (mtime_of : str -> Z)
+         cwd root name ims_hdr head range_hdr,
+    isabs cwd = true ->
+    r_opened (static_file pint parse_date fs_exists fs_isfile fs_access content mtime_of
+                          cwd root name ims_hdr head range_hdr) = true ->
+    exists cs : list str,
+      components (sf_filename cwd root name) = components (abspath cwd root) ++ cs
+      /\ Forall clean cs /\ ~ In s_dotdot cs
+      /\ (cs <> [] \/ abspath cwd root = [SEP]).
+Proof. exact never_outside_lemma. Qed.
+Print Assumptions C16_never_opens_outside_root.
+
+(* the list of opened paths of Static.sf_opened (what the correspondence
+   observes) is the r_opened flag of the response model *)
+Theorem C16_opened_views_agree :
+  forall pint parse_date fs_exists fs_isfile fs_access content mtime_of cwd root name ims_hdr head range_hdr,
+    let g := sf_gate fs_exists fs_isfile fs_access cwd root name in
+    let r := static_file pint parse_date fs_exists fs_isfile fs_access content mtime_of
+                         cwd root name ims_hdr head range_hdr in
+    sf_opened g head (Z.eqb (r_status r) 304)
+    = if r_opened r then [sf_filename cwd root name] else [].
+Proof. exact opened_agree. Qed.
+Print Assumptions C16_opened_views_agree.
+
+(* ---- concrete instances (non-vacuity and the corner cases) ---- *)
+Definition p_a_www : str := [47; 97; 47; 119; 119; 119].              (* "/a/www" *)
+Definition p_cwd : str := [47; 104].                                   (* "/h" *)
+
+Example C16_contained_nonvacuous :
+  (* name "s/../i.txt" under root "/a/www": passes, target /a/www/i.txt *)
+  passes_check p_cwd p_a_www [115; 47; 46; 46; 47; 105; 46; 116; 120; 116] = true
+  /\ components (sf_filename p_cwd p_a_www [115; 47; 46; 46; 47; 105; 46; 116; 120; 116])
+     = [[97]; [119; 119; 119]; [105; 46; 116; 120; 116]].
+Proof. vm_compute. split; reflexivity. Qed.
+
+Example C16_sibling_nonvacuous :
+  (* name "../www2/x" under root "/a/www": target /a/www2/x, refused *)
+  sf_filename p_cwd p_a_www [46; 46; 47; 119; 119; 119; 50; 47; 120] = [47; 97; 47; 119; 119; 119; 50; 47; 120]
+  /\ passes_check p_cwd p_a_www [46; 46; 47; 119; 119; 119; 50; 47; 120] = false
+  (* the same with a relative root "www/" and cwd "/a" *)
+  /\ passes_check [47; 97] [119; 119; 119; 47] [46; 46; 47; 119; 119; 119; 50; 47; 120] = false
+  (* a name that normalises to the root itself is refused too *)
+  /\ passes_check p_cwd p_a_www [] = false
+  /\ passes_check p_cwd p_a_www [115; 47; 46; 46] = false
+  (* an absolute name loses its leading slashes and stays inside: /a/www/etc/passwd *)
+  /\ sf_filename p_cwd p_a_www [47; 47; 101; 116; 99] = [47; 97; 47; 119; 119; 119; 47; 101; 116; 99].
+Proof. vm_compute. repeat split. Qed.
+
+Example C16_root_slash :
+  (* root "/": root+sep = "//"; the target keeps two slashes and passes *)
+  sf_root p_cwd [47] = [47; 47]
+  /\ sf_filename p_cwd [47] [101; 116; 99] = [47; 47; 101; 116; 99]            (* "etc" -> "//etc" *)
+  /\ passes_check p_cwd [47] [101; 116; 99] = true
+  /\ sf_filename p_cwd [47] [] = [47; 47]                                       (* "" -> "//": the root itself *)
+  /\ passes_check p_cwd [47] [] = true
+  /\ passes_check p_cwd [47] [46; 46; 47; 46; 46] = true                        (* "../.." -> "//" *)
+  (* root "//" (and "///"): root+sep = "///", every target collapses to one slash: always 403 *)
+  /\ passes_check p_cwd [47; 47] [101; 116; 99] = false.
+Proof. vm_compute. repeat split. Qed.
